@@ -190,6 +190,7 @@ type c03Case struct {
 	Point     string `json:"point,omitempty"`
 	HoldMs    int    `json:"hold_ms,omitempty"`  // hook moment: the goroutine that raised the event stays busy this long after the SIGTERM
 	DelayMs   int    `json:"delay_ms,omitempty"` // the origin delays every answer (seeds stay in flight while the queue is written)
+	Broken    bool   `json:"broken,omitempty"`   // the first page's first asset (the page itself when pages have no assets) always answers 503 with a body: its retries are used up before or during the stop
 }
 
 var c03Points = []string{"preprocessor.received", "archiver.received", "postprocessor.received", "postprocessor.outlinks", "finisher.received", "preprocessor.forward", "archiver.beforeDo", "archiver.afterFeedback", "archiver.forward", "postprocessor.forward",
@@ -232,6 +233,7 @@ func genC03(t *rapid.T) c03Case {
 	if rapid.IntRange(0, 3).Draw(t, "slow") == 0 {
 		c.DelayMs = []int{100, 400}[rapid.IntRange(0, 1).Draw(t, "delayms")]
 	}
+	c.Broken = rapid.IntRange(0, 3).Draw(t, "broken") == 0
 	return c
 }
 
@@ -287,6 +289,13 @@ func runC03(t veriflib.TB, c c03Case) (res c03Result) {
 	o.Links = c.Links
 	o.AfterStall = c.After
 	o.Delay = time.Duration(c.DelayMs) * time.Millisecond
+	if c.Broken {
+		if c.Assets > 0 {
+			o.FailFirst["/p0/a0.png"] = 1 << 20
+		} else {
+			o.FailFirst["/p0"] = 1 << 20
+		}
+	}
 	defer o.Close()
 	var px *Socks5
 	proxyURL := ""
@@ -478,7 +487,7 @@ func propC03(t veriflib.TB, c c03Case) {
 		veriflib.Fail(t, "C03", "C03/proc", c, res, "%s", res.Viol)
 	}
 	cl := []string{"moment:" + c.Moment, fmt.Sprintf("workers:%d", c.Workers), fmt.Sprintf("pool:%d", c.Pool), fmt.Sprintf("proxy:%v", c.Proxy),
-		fmt.Sprintf("async:%v", c.Async), fmt.Sprintf("ratelimit:%v", c.RateLimit), fmt.Sprintf("seencheck:%v", c.Seencheck), fmt.Sprintf("maxretry:%d", c.MaxRetry), fmt.Sprintf("links:%d", c.Links), "after:" + c.After, fmt.Sprintf("hold:%v", c.HoldMs > 0), fmt.Sprintf("slow-site:%v", c.DelayMs > 0)}
+		fmt.Sprintf("async:%v", c.Async), fmt.Sprintf("ratelimit:%v", c.RateLimit), fmt.Sprintf("seencheck:%v", c.Seencheck), fmt.Sprintf("maxretry:%d", c.MaxRetry), fmt.Sprintf("links:%d", c.Links), "after:" + c.After, fmt.Sprintf("hold:%v", c.HoldMs > 0), fmt.Sprintf("slow-site:%v", c.DelayMs > 0), fmt.Sprintf("exhausted-retries:%v", c.Broken)}
 	if c.Point != "" {
 		cl = append(cl, "point:"+c.Point)
 	}
@@ -521,6 +530,9 @@ func TestVerif_C03_Proc(t *testing.T) {
 				// the stop request arrives while the crawler is still starting up (first poll of the local queue): the
 				// handler is registered, nobody is waiting for the signal yet
 				d.Moment = "startup"
+			} else if (i/6)%4 == 0 {
+				// a URL that has used up its retries on 503 answers (with a body) before the stop arrives
+				d.Moment, d.Broken = "idle", true
 			} else {
 				d.Moment, d.K, d.After = "arrival", 2, "drop"
 			}
